@@ -37,42 +37,50 @@ ASSUMPTIONS = [
 ]
 
 
+PAIR_SHARD = 4000      # harness/c06/main.go pairShard
+
+
 def _eval_shard(args):
-    tier, i, text = args
-    return i, vlib.eval_cases(PID, "%s_%d" % (tier, i), HEADER, text, SCRIPT_QUERIES, timeout=3000)
+    tier, kind, i, text = args
+    if kind == "pairs":
+        return kind, i, vlib.eval_cases(PID, "%s_pairs_%d" % (tier, i), HEADER, text, PAIR_QUERIES, timeout=3000)
+    return kind, i, vlib.eval_cases(PID, "%s_%d" % (tier, i), HEADER, text, SCRIPT_QUERIES, timeout=3000)
 
 
 def evaluate(tier, out):
-    """Evaluate pairs.v and every cases_<i>.v of directory out (shards in
+    """Evaluate every pairs_<i>.v and cases_<i>.v of directory out (shards in
     parallel).  Returns (ok, failures, bad, n) with bad = {query: [indices
     into cases.json's lists]}."""
-    shards = sorted(int(f[6:-2]) for f in os.listdir(out) if f.startswith("cases_") and f.endswith(".v"))
-    texts = [(tier, i, open(os.path.join(out, "cases_%d.v" % i)).read()) for i in shards]
+    jobs = []
+    for f in sorted(os.listdir(out)):
+        if f.startswith("cases_") and f.endswith(".v"):
+            jobs.append((tier, "scripts", int(f[6:-2]), open(os.path.join(out, f)).read()))
+        elif f.startswith("pairs_") and f.endswith(".v"):
+            jobs.append((tier, "pairs", int(f[6:-2]), open(os.path.join(out, f)).read()))
+    jobs.sort(key=lambda j: (j[1], j[2]))
     bad = {"M": [], "O": [], "Os": [], "MP": [], "OP": []}
     fails = []
-    rc, cout, q, _ = vlib.eval_cases(PID, tier + "_pairs", HEADER, open(os.path.join(out, "pairs.v")).read(),
-                                     PAIR_QUERIES, timeout=3000)
-    for k, _ in PAIR_QUERIES:
-        v = vlib.parse_nat_list(q.get(k))
-        if rc != 0 or v is None:
-            fails.append("pairs: " + cout[-2000:])
-            break
-        bad[k] = v
     offsets, off = {}, 0
-    for (_, i, t) in texts:         # shard i holds the cases c0..c(n-1)
+    for (_, kind, i, t) in jobs:        # script shard i holds the cases c0..c(n-1)
+        if kind != "scripts":
+            continue
         offsets[i] = off
         n = 0
         while ("Definition c%d :" % n) in t:
             n += 1
         off += n
     with concurrent.futures.ThreadPoolExecutor(max_workers=max(1, min(8, vlib.NCPU // 2))) as ex:
-        for i, (rc, cout, q, _) in ex.map(_eval_shard, texts):
-            for k, _ in SCRIPT_QUERIES:
+        for kind, i, (rc, cout, q, _) in ex.map(_eval_shard, jobs):
+            queries = PAIR_QUERIES if kind == "pairs" else SCRIPT_QUERIES
+            base = i * PAIR_SHARD if kind == "pairs" else offsets[i]
+            for k, _ in queries:
                 v = vlib.parse_nat_list(q.get(k))
                 if rc != 0 or v is None:
-                    fails.append("shard %d: %s" % (i, cout[-2000:]))
+                    fails.append("%s shard %d: %s" % (kind, i, cout[-2000:]))
                     break
-                bad[k] += [offsets[i] + x for x in v]
+                bad[k] += [base + x for x in v]
+    for k in bad:
+        bad[k].sort()
     return (not fails), fails, bad, off
 
 
